@@ -78,7 +78,7 @@ CLAIMS = {
         "note": "PARTIAL: polls are atomic in the model; thread interleavings are not covered by the theorems. event-listener is modelled, not verified. Reading: a never-polled live upgrade future counts as a holder.",
     },
     "C09": {
-        "text": "For every n and every finite history of the poll-granular Barrier model (any number of waits, spurious polls, new wakers, cancellation at any point, any number of generations): arrivals = generations * max(n,1) + count with count < max(n,1) and exactly one leader per completed generation (C09_accounting); a follower returns only when its arrival generation is complete and the leader is the arrival that completes it (C09_no_early); at quiescence no live wait of a completed generation is pending (C09_release); a wait of the current generation never completes whatever notification reaches it (C09_isolation) - Lean theorems from the invariant BInv. " + _TIE + " Compared fields: outcome (leader/follower), wakers called, inner mutex word, count, generation, listener counts." + (_CALLS % "C09") + _SEARCH + _INJW,
+        "text": "For every n and every finite history of the poll-granular Barrier model (any number of waits, spurious polls, new wakers, cancellation at any point, any number of generations): arrivals = generations * max(n,1) + count with count < max(n,1) and exactly one leader per completed generation (C09_accounting); a follower returns only when its arrival generation is complete and the leader is the arrival that completes it (C09_no_early); at quiescence no live wait of a completed generation is pending (C09_release); a wait of the current generation never completes whatever notification reaches it (C09_isolation); the code path on which a thread parked in wait_blocking resumes equals the poll of a notified wait() future (C09_blocking_is_poll), so the same theorems cover the blocking form - Lean theorems from the invariant BInv. " + _TIE + " Compared fields: outcome (leader/follower), wakers called, inner mutex word, count, generation, listener counts." + (_CALLS % "C09") + _SEARCH + _INJW,
         "note": "PARTIAL: atomic polls (the embedded mutex's slow path and thread interleavings are not exercised by this model); wait_blocking not modelled.",
     },
     "C10": {
@@ -106,8 +106,8 @@ CLAIMS = {
         "note": "PARTIAL: blocking forms are outside the models (loom scenarios only); atomic polls in the poll-granular model.",
     },
     "C08": {
-        "text": "Lean theorems over every finite history of the OnceCell model: once initialised and with no outstanding wake-up nobody polled is pending (C08_init); state 1 holds exactly while a live caller runs its initialiser, so Err, panic and cancellation all leave it (C08_not_stuck); in state 0 with no outstanding wake-up no polled get_or_init-style caller is pending, i.e. one was woken and took over (C08_handover); an error or panic is reported only in the poll in which the caller's own initialiser produced it (C08_blame). Invariants: WInv, RInv (registration on active_initializers / passive_waiters, no stale listeners), KInv (wake bookkeeping; all listeners notified in state 2; a notified active listener in state 0). " + _TIE + (_CALLS % "C08") + _SEARCH + _INJW,
-        "note": "PARTIAL: atomic polls; blocking forms and thread interleavings not covered. event-listener is modelled (notify_additional(usize::MAX) as 'notify every listener').",
+        "text": "Lean theorems over every finite history of the OnceCell model: once initialised and with no outstanding wake-up nobody polled is pending (C08_init); state 1 holds exactly while a live caller runs its initialiser, so Err, panic and cancellation all leave it (C08_not_stuck); in state 0 with no outstanding wake-up no polled get_or_init-style caller is pending, i.e. one was woken and took over (C08_handover); an error or panic is reported only in the poll in which the caller's own initialiser produced it (C08_blame). Blocking forms: C08_blocking_init_is_poll / C08_blocking_wait_is_poll prove that the code path on which a thread parked in get_or_init_blocking / get_or_try_init_blocking / set_blocking / wait_blocking resumes (listener already consumed, then reload of the state) transforms the cell exactly as the poll of the corresponding notified future does, so the poll-history theorems cover parked threads. Invariants: WInv, RInv (registration on active_initializers / passive_waiters, no stale listeners), KInv (wake bookkeeping; all listeners notified in state 2; a notified active listener in state 0). " + _TIE + (_CALLS % "C08") + _SEARCH + _INJW,
+        "note": "PARTIAL: atomic polls; thread interleavings not covered; blocking forms covered through the resume-equals-poll theorems only (the park/unpark itself is not modelled). event-listener is modelled (notify_additional(usize::MAX) as 'notify every listener').",
     },
     "C05": {
         "text": "No-lost-wake-up for the Mutex is a Lean theorem (invariant MInv: word, registration, wake bookkeeping, baton; induction over every history: any number of futures, cancellation at any moment of a future's life, completed futures kept alive, spurious polls and new wakers, bargers, both outcomes of the starvation test) about a model that includes event-listener's list semantics; the most-recent-waker clause is a separate theorem. " + _TIE + " Compared fields: outcome, wakers called, state word, listener count, notified flag." + (_CALLS % "C05") + _ATLOG + _SEARCH + _INJW,
